@@ -27,8 +27,8 @@ EXTENDS CacheKernel, Json, TLC, IOUtils
 
 Recs == ndJsonDeserialize(IOEnv.VT_TRACE)
 
-VARIABLES i, buf, caches, stages, pubs, fsubs, ctls, mons, pend
-vars == <<i, buf, caches, stages, pubs, fsubs, ctls, mons, pend>>
+VARIABLES i, buf, caches, stages, pubs, fsubs, ctls, mons, pend, net
+vars == <<i, buf, caches, stages, pubs, fsubs, ctls, mons, pend, net>>
 
 R == Recs[i]
 A == R.a
@@ -82,6 +82,16 @@ StDeq(s, e) == IF ~IsStage(s) THEN stages
                ELSE IF stages[s].box = <<>> /\ stages[s].hand = <<e>>
                     THEN [stages EXCEPT ![s].hand = <<>>, ![s].taken = @ + 1]
                ELSE [stages EXCEPT ![s].box = DropFirst(BoxR(s), e), ![s].hand = <<>>, ![s].taken = @ + 1]
+
+NewBox == [box |-> <<>>, hand |-> <<>>, full |-> FALSE]
+BoxOf(b) == b.box \o b.hand
+BIn(b, e) == [b EXCEPT !.box = BoxOf(b), !.hand = <<e>>, !.full = (Len(BoxOf(b)) >= buf)]
+BDropClass(b, e) == IF b.hand # <<e>> THEN "drop-unknown" ELSE IF ~b.full THEN "drop-not-full" ELSE ""
+BDeqClass(b, e) == IF BoxOf(b) = <<>> THEN "recv-unexplained"
+                   ELSE IF Head(BoxOf(b)) # e THEN (IF \E j \in DOMAIN BoxOf(b) : BoxOf(b)[j] = e THEN "order" ELSE "recv-unexplained") ELSE ""
+BDeq(b, e) == IF b.box # <<>> /\ Head(b.box) = e THEN [b EXCEPT !.box = Tail(@)]
+              ELSE IF b.box = <<>> /\ b.hand = <<e>> THEN [b EXCEPT !.hand = <<>>]
+              ELSE [b EXCEPT !.box = DropFirst(BoxOf(b), e), !.hand = <<>>]
 
 \* does any drop lie on the path from the root to stage s (then equalities at quiescence do not apply)
 RECURSIVE Lossy(_)
@@ -145,86 +155,98 @@ UpdClass(c, ev, evs) ==
 After(c, evs) == IF KnownEvs(evs) THEN Replay(caches[c].it, evs).it ELSE caches[c].it
 
 (* ------------------------------------------------------------------ actions *)
-Skip == UNCHANGED <<buf, caches, stages, pubs, fsubs, ctls, mons, pend>>
+Skip == UNCHANGED <<buf, caches, stages, pubs, fsubs, ctls, mons, pend, net>>
+
+NetInit == [lists |-> <<>>, consumed |-> 0, wat |-> <<>>, sess |-> <<>>, expectStop |-> FALSE, failDelivered |-> FALSE, firstFailed |-> FALSE, period |-> 0, tDelivered |-> -1, variant |-> ""]
 
 EvBegin == /\ buf' = R.buf
            /\ caches' = <<>> /\ stages' = <<>> /\ pubs' = <<>> /\ fsubs' = <<>> /\ ctls' = <<>> /\ mons' = <<>>
            /\ pend' = [mon |-> "", monmode |-> "", consumer |-> <<>>, closedTops |-> {}, closedAll |-> FALSE, srv |-> <<>>]
+           /\ net' = [NetInit EXCEPT !.period = IF "period_us" \in DOMAIN R THEN R.period_us ELSE 0, !.variant = R.variant]
 
 EvCacheNew == /\ Report(IF X(1) \notin Filters THEN "unknown-filter" ELSE "", [cache |-> A, filter |-> X(1)])
               /\ caches' = (A :> NewCache(X(1))) @@ caches
-              /\ UNCHANGED <<buf, stages, pubs, fsubs, ctls, mons, pend>>
+              /\ UNCHANGED <<buf, stages, pubs, fsubs, ctls, mons, pend, net>>
 
 EvCacheFilter == /\ Report(IF X(1) \notin Filters THEN "unknown-filter" ELSE "", [cache |-> A, filter |-> X(1)])
                  /\ caches' = [caches EXCEPT ![A].f = X(1)]
-                 /\ UNCHANGED <<buf, stages, pubs, fsubs, ctls, mons, pend>>
+                 /\ UNCHANGED <<buf, stages, pubs, fsubs, ctls, mons, pend, net>>
 
 EvCacheSync == /\ Report(SyncClass(A, X(1), X(2)), [cache |-> A, pre |-> caches[A].it, filter |-> caches[A].f, list |-> X(1), events |-> X(2)])
                /\ caches' = [caches EXCEPT ![A].it = After(A, X(2)), ![A].ev = X(2)]
-               /\ UNCHANGED <<buf, stages, pubs, fsubs, ctls, mons, pend>>
+               /\ UNCHANGED <<buf, stages, pubs, fsubs, ctls, mons, pend, net>>
 
 EvCacheUpdate == /\ Report(UpdClass(A, X(1), X(2)), [cache |-> A, pre |-> caches[A].it, filter |-> caches[A].f, event |-> X(1), events |-> X(2)])
                  /\ caches' = [caches EXCEPT ![A].it = After(A, X(2)), ![A].ev = X(2)]
-                 /\ UNCHANGED <<buf, stages, pubs, fsubs, ctls, mons, pend>>
+                 /\ UNCHANGED <<buf, stages, pubs, fsubs, ctls, mons, pend, net>>
 
 EvCacheList == /\ Report(IF ~KnownList(X(1)) THEN "foreign-object"
                          ELSE IF ~ListOK(X(1)) \/ ItemsOf(X(1)) # caches[A].it THEN "list-not-snapshot" ELSE "",
                          [cache |-> A, spec |-> caches[A].it, listed |-> X(1)])
                /\ caches' = [caches EXCEPT ![A].lists = Remember(@, IF KnownList(X(1)) THEN ItemsOf(X(1)) ELSE caches[A].it)]
-               /\ UNCHANGED <<buf, stages, pubs, fsubs, ctls, mons, pend>>
+               /\ UNCHANGED <<buf, stages, pubs, fsubs, ctls, mons, pend, net>>
 
-EvCtlNew == /\ ctls' = (A :> [cache |-> X(1), sub |-> X(2), pub |-> X(3), ready |-> FALSE, nsync |-> 0, stopping |-> FALSE]) @@ ctls
+EvCtlNew == /\ ctls' = (A :> [cache |-> X(1), sub |-> X(2), pub |-> X(3), watcher |-> X(5), ready |-> FALSE, nsync |-> 0, stopping |-> FALSE]) @@ ctls
             /\ stages' = [stages EXCEPT ![X(2)].fed = TRUE]
-            /\ UNCHANGED <<buf, caches, pubs, fsubs, mons, pend>>
+            /\ UNCHANGED <<buf, caches, pubs, fsubs, mons, pend, net>>
 
 \* ctl.synced(version, list, events, initialized): the first sync publishes nothing
 EvCtlSynced ==
-  LET c == ctls[A]  evs == X(3) IN
-  /\ Report(IF evs # caches[c.cache].ev THEN "ctl-events-differ" ELSE "", [ctl |-> A, events |-> evs, cache_events |-> caches[c.cache].ev])
+  LET c == ctls[A]  evs == X(3)
+      \* the list must be one the server returned and that was not consumed before (lists are consumed in order)
+      cand == {j \in DOMAIN net.lists : j > net.consumed /\ net.lists[j].fail = "" /\ ToString(net.lists[j].rv) = X(1)
+                                        /\ KnownList(X(2)) /\ ItemsOf(net.lists[j].list) = ItemsOf(X(2)) /\ Len(net.lists[j].list) = Len(X(2))} IN
+  /\ Report(First(<<IF evs # caches[c.cache].ev THEN "ctl-events-differ" ELSE "",
+                    IF net.lists # <<>> /\ cand = {} THEN "synced-list-not-from-server" ELSE "">>),
+            [ctl |-> A, events |-> evs, cache_events |-> caches[c.cache].ev, version |-> X(1), list |-> X(2), server_lists |-> net.lists, consumed |-> net.consumed])
   /\ ctls' = [ctls EXCEPT ![A].nsync = @ + 1]
   /\ stages' = IF X(4) THEN [stages EXCEPT ![c.sub].inq = @ \o evs] ELSE stages
+  /\ net' = IF cand # {} THEN [net EXCEPT !.consumed = CHOOSE j \in cand : \A m \in cand : j <= m] ELSE net
   /\ UNCHANGED <<buf, caches, pubs, fsubs, mons, pend>>
 
 EvCtlReady == /\ Report(IF ctls[A].nsync = 0 THEN "ready-before-sync" ELSE "", [ctl |-> A])
               /\ ctls' = [ctls EXCEPT ![A].ready = TRUE]
-              /\ UNCHANGED <<buf, caches, stages, pubs, fsubs, mons, pend>>
+              /\ UNCHANGED <<buf, caches, stages, pubs, fsubs, mons, pend, net>>
 
 EvCtlUpdated ==
   LET c == ctls[A]  evs == X(2) IN
   /\ Report(IF evs # caches[c.cache].ev THEN "ctl-events-differ"
             ELSE IF ~c.ready /\ evs # <<>> THEN "publish-before-ready" ELSE "", [ctl |-> A, events |-> evs, cache_events |-> caches[c.cache].ev])
   /\ stages' = [stages EXCEPT ![c.sub].inq = @ \o evs]
-  /\ UNCHANGED <<buf, caches, pubs, fsubs, ctls, mons, pend>>
+  /\ UNCHANGED <<buf, caches, pubs, fsubs, ctls, mons, pend, net>>
 
-EvCtlStopping == /\ ctls' = [ctls EXCEPT ![A].stopping = TRUE]
+EvCtlStopping == /\ Report(First(<<IF ~pend.closedAll /\ ~net.expectStop THEN "stopped-without-cause" ELSE "",
+                                   IF net.expectStop /\ ~pend.closedAll /\ X(1) = "" THEN "failure-not-reported" ELSE "">>),
+                           [ctl |-> A, err |-> X(1), closed_by_driver |-> pend.closedAll, list_failure_injected |-> net.expectStop])
+                 /\ ctls' = [ctls EXCEPT ![A].stopping = TRUE]
                  /\ pend' = [pend EXCEPT !.closedAll = TRUE]
-                 /\ UNCHANGED <<buf, caches, stages, pubs, fsubs, mons>>
+                 /\ UNCHANGED <<buf, caches, stages, pubs, fsubs, mons, net>>
 
 EvSubNew == /\ stages' = (A :> NewStage("sub", X(1))) @@ stages
-            /\ UNCHANGED <<buf, caches, pubs, fsubs, ctls, mons, pend>>
+            /\ UNCHANGED <<buf, caches, pubs, fsubs, ctls, mons, pend, net>>
 
 EvSubIn == /\ Report(InClass(A, X(1)), [stage |-> A, event |-> X(1), expected |-> stages[A].inq])
            /\ stages' = StIn(A, X(1))
-           /\ UNCHANGED <<buf, caches, pubs, fsubs, ctls, mons, pend>>
+           /\ UNCHANGED <<buf, caches, pubs, fsubs, ctls, mons, pend, net>>
 
 EvSubDrop == /\ Report(DropClass(A, X(1)), [stage |-> A, event |-> X(1), occupancy_at_in |-> Len(stages[A].box), buf |-> buf])
              /\ stages' = StDrop(A)
-             /\ UNCHANGED <<buf, caches, pubs, fsubs, ctls, mons, pend>>
+             /\ UNCHANGED <<buf, caches, pubs, fsubs, ctls, mons, pend, net>>
 
 EvSubStopping == /\ Report(StopClass(A), [stopping |-> A, closed |-> pend.closedTops])
                  /\ stages' = [stages EXCEPT ![A].stopping = TRUE]
-                 /\ UNCHANGED <<buf, caches, pubs, fsubs, ctls, mons, pend>>
+                 /\ UNCHANGED <<buf, caches, pubs, fsubs, ctls, mons, pend, net>>
 
 EvPubNew == /\ pubs' = (A :> [parent |-> X(1), kids |-> {}, stopping |-> FALSE]) @@ pubs
             /\ pend' = SetConsumer(X(1), "lib")
-            /\ UNCHANGED <<buf, caches, stages, fsubs, ctls, mons>>
+            /\ UNCHANGED <<buf, caches, stages, fsubs, ctls, mons, net>>
 
 EvPubSubscribe == /\ pubs' = [pubs EXCEPT ![A].kids = @ \cup {X(1)}]
                   /\ stages' = [stages EXCEPT ![X(1)].feeder = A, ![X(1)].fed = TRUE]
-                  /\ UNCHANGED <<buf, caches, fsubs, ctls, mons, pend>>
+                  /\ UNCHANGED <<buf, caches, fsubs, ctls, mons, pend, net>>
 
 EvPubUnsubscribe == /\ pubs' = [pubs EXCEPT ![A].kids = @ \ {X(1)}]
-                    /\ UNCHANGED <<buf, caches, stages, fsubs, ctls, mons, pend>>
+                    /\ UNCHANGED <<buf, caches, stages, fsubs, ctls, mons, pend, net>>
 
 \* the publisher took e from the stage it reads and now hands it to every child in turn;
 \* when it takes the next one every child has taken the previous one (or is shutting down)
@@ -237,25 +259,25 @@ EvPubEvent ==
   /\ Report(First(<<DeqClass(p.parent, e), IF late # {} THEN "lost-in-fanout" ELSE "">>),
             [pub |-> A, event |-> e, source |-> p.parent, source_box |-> IF IsStage(p.parent) THEN BoxR(p.parent) ELSE <<>>, children_behind |-> late])
   /\ stages' = [s \in DOMAIN st1 |-> IF s \in p.kids THEN [st1[s] EXCEPT !.inq = (IF st1[s].stopping THEN <<>> ELSE @) \o <<e>>] ELSE st1[s]]
-  /\ UNCHANGED <<buf, caches, pubs, fsubs, ctls, mons, pend>>
+  /\ UNCHANGED <<buf, caches, pubs, fsubs, ctls, mons, pend, net>>
 
 EvPubStopping == /\ Report(StopClass(A), [stopping |-> A, closed |-> pend.closedTops])
                  /\ pubs' = [pubs EXCEPT ![A].stopping = TRUE]
-                 /\ UNCHANGED <<buf, caches, stages, fsubs, ctls, mons, pend>>
+                 /\ UNCHANGED <<buf, caches, stages, fsubs, ctls, mons, pend, net>>
 
 \* fsub.new(parent, cache, filter, deferred)
 EvFsubNew == /\ fsubs' = (A :> [parent |-> X(1), cache |-> X(2), f |-> X(3), def |-> X(4), pdone |-> FALSE, pend |-> FALSE,
                                  ready |-> FALSE, outq |-> <<>>, supplied |-> FALSE]) @@ fsubs
              /\ stages' = (A :> NewStage("fsub", X(2))) @@ stages
              /\ pend' = SetConsumer(X(1), "lib")
-             /\ UNCHANGED <<buf, caches, pubs, ctls, mons>>
+             /\ UNCHANGED <<buf, caches, pubs, ctls, mons, net>>
 
 EvFsubPready ==
   LET fs == fsubs[A] IN
   /\ Report(First(<<IF ~IsReady(fs.parent) THEN "parent-not-ready" ELSE "",
                     IF X(1) # fs.pend THEN "flag-mismatch" ELSE "">>), [fsub |-> A, spec |-> fs, logged_pending |-> X(1)])
   /\ fsubs' = [fsubs EXCEPT ![A].pdone = TRUE]
-  /\ UNCHANGED <<buf, caches, stages, pubs, ctls, mons, pend>>
+  /\ UNCHANGED <<buf, caches, stages, pubs, ctls, mons, pend, net>>
 
 ParentCache(fsname) == CacheOf(fsubs[fsname].parent)
 
@@ -265,7 +287,7 @@ EvFsubSynced ==
   /\ Report(IF ~KnownList(l) THEN "foreign-object"
             ELSE IF ItemsOf(l) \notin RecentLists(ParentCache(A)) THEN "sync-list-not-parent-listing" ELSE "",
             [fsub |-> A, list |-> l, parent_cache |-> ParentCache(A)])
-  /\ UNCHANGED <<buf, caches, stages, pubs, fsubs, ctls, mons, pend>>
+  /\ UNCHANGED <<buf, caches, stages, pubs, fsubs, ctls, mons, pend, net>>
 
 \* fsub.ready: allowed only when the parent is ready, a filter has been supplied if deferred, and the
 \* private cache holds the filtered parent content (w.r.t. a recent listing or the parent's content now)
@@ -278,7 +300,7 @@ EvFsubReady ==
                     IF ~ok THEN "ready-unsynced" ELSE "">>),
             [fsub |-> A, spec |-> fs, cache |-> caches[fs.cache].it, filter |-> caches[fs.cache].f, parent |-> caches[pc].it])
   /\ fsubs' = [fsubs EXCEPT ![A].ready = TRUE]
-  /\ UNCHANGED <<buf, caches, stages, pubs, ctls, mons, pend>>
+  /\ UNCHANGED <<buf, caches, stages, pubs, ctls, mons, pend, net>>
 
 SameMeaning(f, g) == \A k \in Keys, l \in Labels : AcceptKL(f, k, l) = AcceptKL(g, k, l)
 
@@ -291,7 +313,7 @@ EvFsubRefilter ==
   /\ fsubs' = [fsubs EXCEPT ![A].supplied = TRUE,
                             ![A].pend = IF ~fs.pdone THEN TRUE ELSE @,
                             ![A].f = IF X(2) THEN X(1) ELSE @]
-  /\ UNCHANGED <<buf, caches, stages, pubs, ctls, mons, pend>>
+  /\ UNCHANGED <<buf, caches, stages, pubs, ctls, mons, pend, net>>
 
 \* fsub.refiltered(list, events): list is "" (nil) on the not-yet-ready path
 EvFsubRefiltered ==
@@ -302,25 +324,25 @@ EvFsubRefiltered ==
             ELSE IF evs # caches[fs.cache].ev THEN "fsub-events-differ" ELSE "",
             [fsub |-> A, list |-> l, events |-> evs])
   /\ fsubs' = [fsubs EXCEPT ![A].outq = IF ~nil /\ fs.ready THEN evs ELSE <<>>]
-  /\ UNCHANGED <<buf, caches, stages, pubs, ctls, mons, pend>>
+  /\ UNCHANGED <<buf, caches, stages, pubs, ctls, mons, pend, net>>
 
 \* fsub.in(event, ok, ready): taken from the parent stage
 EvFsubIn ==
   LET fs == fsubs[A]  e == X(1) IN
   IF ~X(2) THEN \* parent's Events() closed
      /\ Report(IF IsStage(fs.parent) /\ BoxR(fs.parent) # <<>> THEN "closed-before-drained" ELSE "", [fsub |-> A, parent_box |-> BoxR(fs.parent)])
-     /\ UNCHANGED <<buf, caches, stages, pubs, fsubs, ctls, mons, pend>>
+     /\ UNCHANGED <<buf, caches, stages, pubs, fsubs, ctls, mons, pend, net>>
   ELSE
      /\ Report(First(<<DeqClass(fs.parent, e), IF X(3) # fs.ready THEN "flag-mismatch" ELSE "">>),
                [fsub |-> A, event |-> e, source |-> fs.parent, source_box |-> IF IsStage(fs.parent) THEN BoxR(fs.parent) ELSE <<>>, spec_ready |-> fs.ready])
      /\ stages' = StDeq(fs.parent, e)
-     /\ UNCHANGED <<buf, caches, pubs, fsubs, ctls, mons, pend>>
+     /\ UNCHANGED <<buf, caches, pubs, fsubs, ctls, mons, pend, net>>
 
 EvFsubUpdated ==
   LET fs == fsubs[A] IN
   /\ Report(IF X(2) # caches[fs.cache].ev THEN "fsub-events-differ" ELSE "", [fsub |-> A, events |-> X(2), cache_events |-> caches[fs.cache].ev])
   /\ fsubs' = [fsubs EXCEPT ![A].outq = X(2)]
-  /\ UNCHANGED <<buf, caches, stages, pubs, ctls, mons, pend>>
+  /\ UNCHANGED <<buf, caches, stages, pubs, ctls, mons, pend, net>>
 
 EvFsubOut ==
   LET fs == fsubs[A]  e == X(1) IN
@@ -328,18 +350,18 @@ EvFsubOut ==
                     IF ~fs.ready THEN "emit-before-ready" ELSE "">>), [fsub |-> A, event |-> e, expected |-> fs.outq])
   /\ fsubs' = [fsubs EXCEPT ![A].outq = IF @ # <<>> THEN Tail(@) ELSE <<>>]
   /\ stages' = StOut(A, e)
-  /\ UNCHANGED <<buf, caches, pubs, ctls, mons, pend>>
+  /\ UNCHANGED <<buf, caches, pubs, ctls, mons, pend, net>>
 
 EvFsubDrop == /\ Report(DropClass(A, X(1)), [stage |-> A, event |-> X(1), occupancy_at_in |-> Len(stages[A].box), buf |-> buf])
               /\ stages' = StDrop(A)
-              /\ UNCHANGED <<buf, caches, pubs, fsubs, ctls, mons, pend>>
+              /\ UNCHANGED <<buf, caches, pubs, fsubs, ctls, mons, pend, net>>
 
 EvFsubStopping == /\ Report(First(<<IF fsubs[A].outq # <<>> THEN "events-not-emitted" ELSE "", StopClass(A)>>), [fsub |-> A, left |-> fsubs[A].outq, closed |-> pend.closedTops])
                   /\ stages' = [stages EXCEPT ![A].stopping = TRUE]
-                  /\ UNCHANGED <<buf, caches, pubs, fsubs, ctls, mons, pend>>
+                  /\ UNCHANGED <<buf, caches, pubs, fsubs, ctls, mons, pend, net>>
 
 EvFsubClosed == /\ stages' = [stages EXCEPT ![A].closed = TRUE]
-                /\ UNCHANGED <<buf, caches, pubs, fsubs, ctls, mons, pend>>
+                /\ UNCHANGED <<buf, caches, pubs, fsubs, ctls, mons, pend, net>>
 
 (* ---- harness observations ---- *)
 
@@ -355,7 +377,7 @@ EvRecv ==
   /\ Report(First(<<DeqClass(A, e), IF ~R.rdy THEN "event-before-ready" ELSE "", IF cacheOlder THEN "cache-older-than-event" ELSE "">>),
             [stage |-> A, event |-> e, box |-> IF IsStage(A) THEN BoxR(A) ELSE <<>>, ready |-> R.rdy, cache_version |-> R.cv])
   /\ stages' = StDeq(A, e)
-  /\ UNCHANGED <<buf, caches, pubs, fsubs, ctls, mons, pend>>
+  /\ UNCHANGED <<buf, caches, pubs, fsubs, ctls, mons, pend, net>>
 
 \* the harness saw Ready() closed and listed the cache at once
 EvReady ==
@@ -364,7 +386,7 @@ EvReady ==
                     \* the cache may have moved on between the read and this line: the listing must be one the cache actor produced
                     IF R.ok /\ KnownList(R.list) /\ c \in DOMAIN caches /\ ItemsOf(R.list) \notin RecentLists(c) THEN "list-not-snapshot" ELSE "">>),
             [node |-> A, stage |-> st, list |-> R.list])
-  /\ UNCHANGED <<buf, caches, stages, pubs, fsubs, ctls, mons, pend>>
+  /\ UNCHANGED <<buf, caches, stages, pubs, fsubs, ctls, mons, pend, net>>
 
 \* snapshots at quiescence: the listing equals the spec content; filtered nodes hold the filtered parent content
 EvSnap ==
@@ -379,7 +401,7 @@ EvSnap ==
                     IF quiet /\ isF /\ fsubs[st].ready /\ caches[c].f # fsubs[st].f THEN "filter-not-set" ELSE "">>),
             [node |-> A, stage |-> st, list |-> R.list, spec |-> IF c \in DOMAIN caches THEN caches[c].it ELSE <<>>,
              parent |-> IF isF THEN caches[ParentCache(st)].it ELSE <<>>, filter |-> IF isF THEN fsubs[st].f ELSE ""])
-  /\ UNCHANGED <<buf, caches, stages, pubs, fsubs, ctls, mons, pend>>
+  /\ UNCHANGED <<buf, caches, stages, pubs, fsubs, ctls, mons, pend, net>>
 
 \* quiescence: nothing may be in flight: every published event was taken by every live child, nothing in hand,
 \* and what a healthy harness consumer reads has been read
@@ -389,23 +411,26 @@ EvQuiesce ==
       \* what a library actor or a reading consumer takes from has been taken
       stuck == {s \in DOMAIN stages : ~stages[s].stopping /\ BoxR(s) # <<>> /\ ConsumerOf(s) \in {"lib", "healthy", "slow"}}
       \* everything below a closed node is shutting down
-      alive == {s \in DOMAIN stages : ~stages[s].stopping /\ \E t \in pend.closedTops : UnderTop(s, t)} IN
+      alive == {s \in DOMAIN stages : ~stages[s].stopping /\ \E t \in pend.closedTops : UnderTop(s, t)}
+      wstuck == {w \in DOMAIN net.wat : BoxOf(net.wat[w]) # <<>> /\ ~pend.closedAll}
+                  \cup {sn \in DOMAIN net.sess : net.sess[sn].alive /\ BoxOf(net.sess[sn]) # <<>> /\ ~pend.closedAll
+                                                  /\ \E w \in DOMAIN net.wat : net.wat[w].sess = sn} IN
   /\ Report(IF ~R.ok THEN "not-quiescent"
             ELSE IF behind # {} THEN "lost-at-quiescence"
             ELSE IF pending # {} THEN "events-not-emitted"
-            ELSE IF stuck # {} THEN "stuck-at-quiescence"
+            ELSE IF stuck # {} \/ wstuck # {} THEN "stuck-at-quiescence"
             ELSE IF alive # {} THEN "cascade-incomplete" ELSE "",
-            [behind |-> [s \in behind |-> stages[s].inq], pending |-> pending, stuck |-> stuck, alive_below_closed |-> alive])
-  /\ UNCHANGED <<buf, caches, stages, pubs, fsubs, ctls, mons, pend>>
+            [behind |-> [s \in behind |-> stages[s].inq], pending |-> pending, stuck |-> stuck \cup wstuck, alive_below_closed |-> alive])
+  /\ UNCHANGED <<buf, caches, stages, pubs, fsubs, ctls, mons, pend, net>>
 
 (* ---- monitors ---- *)
 EvCallCreate == /\ pend' = [pend EXCEPT !.mon = IF R.kind = "mon" THEN "monnode" \o ToString(R.node) ELSE @,
                                           !.monmode = IF R.kind = "mon" THEN R.mode ELSE @]
-                /\ UNCHANGED <<buf, caches, stages, pubs, fsubs, ctls, mons>>
+                /\ UNCHANGED <<buf, caches, stages, pubs, fsubs, ctls, mons, net>>
 
 EvMonNew == /\ mons' = (pend.mon :> [sub |-> X(1), inited |-> FALSE, active |-> "", stopping |-> FALSE, n |-> 0]) @@ mons
             /\ pend' = [SetConsumer(X(1), IF pend.monmode = "stalled" THEN "stalled" ELSE "lib") EXCEPT !.mon = ""]
-            /\ UNCHANGED <<buf, caches, stages, pubs, fsubs, ctls>>
+            /\ UNCHANGED <<buf, caches, stages, pubs, fsubs, ctls, net>>
 
 EvCb ==
   IF A \notin DOMAIN mons THEN Report("callback-of-unknown-monitor", [mon |-> A]) /\ Skip ELSE
@@ -419,7 +444,7 @@ EvCb ==
                           IF KnownList(R.arg) /\ ItemsOf(R.arg) \notin RecentLists(CacheOf(st)) THEN "initialize-not-cache-content" ELSE "">>),
                   [mon |-> A, arg |-> R.arg])
         /\ mons' = [mons EXCEPT ![A].inited = TRUE, ![A].active = "init", ![A].n = @ + 1]
-        /\ UNCHANGED <<buf, caches, stages, pubs, fsubs, ctls, pend>>
+        /\ UNCHANGED <<buf, caches, stages, pubs, fsubs, ctls, pend, net>>
      ELSE
         LET e == [et |-> R.kind, o |-> R.arg[1]] IN
         /\ Report(First(<<IF m.active # "" THEN "callbacks-overlap" ELSE "",
@@ -429,29 +454,140 @@ EvCb ==
                   [mon |-> A, callback |-> e, box |-> IF IsStage(st) THEN BoxR(st) ELSE <<>>])
         /\ mons' = [mons EXCEPT ![A].active = R.kind, ![A].n = @ + 1]
         /\ stages' = StDeq(st, e)
-        /\ UNCHANGED <<buf, caches, pubs, fsubs, ctls, pend>>
+        /\ UNCHANGED <<buf, caches, pubs, fsubs, ctls, pend, net>>
   ELSE
      /\ Report(IF m.active # R.kind THEN "callbacks-overlap" ELSE "", [mon |-> A, exit |-> R.kind, active |-> m.active])
      /\ mons' = [mons EXCEPT ![A].active = ""]
-     /\ UNCHANGED <<buf, caches, stages, pubs, fsubs, ctls, pend>>
+     /\ UNCHANGED <<buf, caches, stages, pubs, fsubs, ctls, pend, net>>
 
 EvRetCreate ==
   /\ pend' = IF R.err = "" /\ R.kind \in {"sub", "fsub", "dsub"} THEN SetConsumer(R.stage, R.mode) ELSE pend
-  /\ UNCHANGED <<buf, caches, stages, pubs, fsubs, ctls, mons>>
+  /\ UNCHANGED <<buf, caches, stages, pubs, fsubs, ctls, mons, net>>
 
 \* the driver closes a node: from now on everything under the node's top subscription may stop
 EvCallClose ==
   /\ pend' = IF R.stage \in DOMAIN ctls THEN [pend EXCEPT !.closedAll = TRUE]
              ELSE IF R.stage \in DOMAIN mons THEN [pend EXCEPT !.closedTops = @ \cup {mons[R.stage].sub}]
              ELSE [pend EXCEPT !.closedTops = @ \cup {NodeTop(R.stage)}]
-  /\ UNCHANGED <<buf, caches, stages, pubs, fsubs, ctls, mons>>
+  /\ UNCHANGED <<buf, caches, stages, pubs, fsubs, ctls, mons, net>>
 
 \* server content at quiescence: every running controller's cache is the accepted server content
 EvSrvSnapshot ==
   LET it == ItemsOf(R.list)
       behind == {c \in DOMAIN ctls : ~ctls[c].stopping /\ ctls[c].ready /\ caches[ctls[c].cache].it # Filtered(it, caches[ctls[c].cache].f)} IN
-  /\ Report(IF behind # {} THEN "cache-not-current" ELSE "", [server |-> it, caches |-> [c \in behind |-> caches[ctls[c].cache].it]])
+  /\ Report(IF R.converged /\ behind # {} THEN "cache-not-current" ELSE "", [server |-> it, caches |-> [c \in behind |-> caches[ctls[c].cache].it]])
   /\ Skip
+
+(* ------------------------------------------------------------------ server, lister, watcher, session *)
+EvSrvListRet ==
+  /\ net' = [net EXCEPT !.lists = Append(@, [n |-> R.n, rv |-> R.rv, list |-> R.list, fail |-> R.fail]),
+                        !.expectStop = @ \/ (R.fail \notin {"", "ctx"}),
+                        !.firstFailed = @ \/ (R.n = 0 /\ R.fail \notin {"", "ctx"})]
+  /\ UNCHANGED <<buf, caches, stages, pubs, fsubs, ctls, mons, pend>>
+
+\* one list at a time, and not before about one period after the previous result was taken
+EvSrvListCall ==
+  /\ Report(First(<<IF R.inflight > 1 THEN "lists-overlap" ELSE "",
+                    IF R.n > 0 /\ net.tDelivered >= 0 /\ net.period > 0 /\ (R.t - net.tDelivered) * 10 < net.period * 9 THEN "list-too-early" ELSE "">>),
+            [n |-> R.n, inflight |-> R.inflight, since_result_taken_us |-> R.t - net.tDelivered, period_us |-> net.period])
+  /\ net' = [net EXCEPT !.tDelivered = -1]
+  /\ UNCHANGED <<buf, caches, stages, pubs, fsubs, ctls, mons, pend>>
+
+EvListerDelivered == /\ net' = [net EXCEPT !.tDelivered = R.t]
+                     /\ UNCHANGED <<buf, caches, stages, pubs, fsubs, ctls, mons, pend>>
+
+\* ctl.list(type, err): the controller took a list result
+EvCtlList == /\ net' = [net EXCEPT !.failDelivered = @ \/ (X(2) # "") \/ (X(1) \notin {"*v1.PodList", "*v1.List"})]
+             /\ UNCHANGED <<buf, caches, stages, pubs, fsubs, ctls, mons, pend>>
+
+EvWatcherNew == /\ net' = [net EXCEPT !.wat = (A :> (NewBox @@ [ver |-> "", sess |-> ""])) @@ @]
+                /\ UNCHANGED <<buf, caches, stages, pubs, fsubs, ctls, mons, pend>>
+
+EvSessionNew == /\ net' = [net EXCEPT !.sess = (A :> (NewBox @@ [ver |-> X(1), frame |-> <<>>, alive |-> TRUE])) @@ @]
+                /\ UNCHANGED <<buf, caches, stages, pubs, fsubs, ctls, mons, pend>>
+
+\* watcher.reset(version, session): the controller relisted; forwarded-but-unconsumed events are obsolete
+EvWatcherReset ==
+  /\ Report(IF X(2) \in DOMAIN net.sess /\ net.sess[X(2)].ver # X(1) THEN "resume-version" ELSE "", [watcher |-> A, version |-> X(1)])
+  /\ net' = [net EXCEPT !.wat[A] = [box |-> <<>>, hand |-> <<>>, full |-> FALSE, ver |-> X(1), sess |-> X(2)]]
+  /\ UNCHANGED <<buf, caches, stages, pubs, fsubs, ctls, mons, pend>>
+
+\* watcher.retry(version, session): a reconnect resumes after the last event received and keeps what was forwarded
+EvWatcherRetry ==
+  /\ Report(IF X(1) # net.wat[A].ver \/ (X(2) \in DOMAIN net.sess /\ net.sess[X(2)].ver # net.wat[A].ver) THEN "resume-version" ELSE "",
+            [watcher |-> A, logged |-> X(1), last_received |-> net.wat[A].ver])
+  /\ net' = [net EXCEPT !.wat[A].sess = X(2)]
+  /\ UNCHANGED <<buf, caches, stages, pubs, fsubs, ctls, mons, pend>>
+
+EvWatcherSessionDone ==
+  /\ Report(IF X(1) # net.wat[A].ver THEN "resume-version" ELSE "", [watcher |-> A, logged |-> X(1), last_received |-> net.wat[A].ver])
+  /\ UNCHANGED <<buf, caches, stages, pubs, fsubs, ctls, mons, pend, net>>
+
+\* watcher.in(event, session): taken from the session's buffer, now in hand at the watcher
+EvWatcherIn ==
+  LET e == X(1)  sn == X(2)  known == sn \in DOMAIN net.sess IN
+  /\ Report(IF known THEN BDeqClass(net.sess[sn], e) ELSE "deq-unknown-stage", [watcher |-> A, event |-> e, session |-> sn])
+  /\ net' = [net EXCEPT !.wat[A] = [BIn(@, e) EXCEPT !.ver = IF IsNum(e.o.v) THEN ToString(e.o.v) ELSE @],
+                        !.sess = IF known THEN [@ EXCEPT ![sn] = BDeq(@, e)] ELSE @]
+  /\ UNCHANGED <<buf, caches, stages, pubs, fsubs, ctls, mons, pend>>
+
+EvWatcherDrop ==
+  /\ Report(BDropClass(net.wat[A], X(1)), [watcher |-> A, event |-> X(1), occupancy_at_in |-> Len(net.wat[A].box)])
+  /\ net' = [net EXCEPT !.wat[A].hand = <<>>]
+  /\ UNCHANGED <<buf, caches, stages, pubs, fsubs, ctls, mons, pend>>
+
+\* ctl.event(event): the controller took the next forwarded event
+EvCtlEvent ==
+  LET w == ctls[A].watcher IN
+  /\ Report(BDeqClass(net.wat[w], X(1)), [ctl |-> A, event |-> X(1), watcher_box |-> BoxOf(net.wat[w])])
+  /\ net' = [net EXCEPT !.wat[w] = BDeq(@, X(1))]
+  /\ UNCHANGED <<buf, caches, stages, pubs, fsubs, ctls, mons, pend>>
+
+IsData(f) == f # <<>> /\ f[1].kind = "obj" /\ f[1].wt \in {"ADDED", "MODIFIED", "DELETED"}
+EtOf(wt) == CASE wt = "ADDED" -> "create" [] wt = "MODIFIED" -> "update" [] wt = "DELETED" -> "delete" [] OTHER -> "?"
+
+\* session.frame(ok, frame): the previous data frame must have been turned into an event (or dropped for overflow)
+EvSessionFrame ==
+  /\ Report(IF IsData(net.sess[A].frame) THEN "frame-ignored" ELSE "", [session |-> A, frame |-> net.sess[A].frame])
+  /\ net' = [net EXCEPT !.sess[A].frame = IF X(1) THEN <<X(2)>> ELSE <<>>]
+  /\ UNCHANGED <<buf, caches, stages, pubs, fsubs, ctls, mons, pend>>
+
+\* session.in(event): only a data frame becomes an event, with the matching type and object
+EvSessionIn ==
+  LET f == net.sess[A].frame  e == X(1) IN
+  /\ Report(IF ~IsData(f) \/ EtOf(f[1].wt) # e.et \/ f[1].o # e.o THEN "frame-mistranslated" ELSE "", [session |-> A, frame |-> f, event |-> e])
+  /\ net' = [net EXCEPT !.sess[A] = [BIn(@, e) EXCEPT !.frame = <<>>]]
+  /\ UNCHANGED <<buf, caches, stages, pubs, fsubs, ctls, mons, pend>>
+
+EvSessionDrop ==
+  /\ Report(BDropClass(net.sess[A], X(1)), [session |-> A, event |-> X(1), occupancy_at_in |-> Len(net.sess[A].box)])
+  /\ net' = [net EXCEPT !.sess[A].hand = <<>>]
+  /\ UNCHANGED <<buf, caches, stages, pubs, fsubs, ctls, mons, pend>>
+
+EvSessionEnd ==
+  /\ Report(IF A \in DOMAIN net.sess /\ IsData(net.sess[A].frame) THEN "frame-ignored" ELSE "", [session |-> A])
+  /\ net' = IF A \in DOMAIN net.sess THEN [net EXCEPT !.sess[A].alive = FALSE, !.sess[A].frame = <<>>] ELSE net
+  /\ UNCHANGED <<buf, caches, stages, pubs, fsubs, ctls, mons, pend>>
+
+\* the fake server saw Watch(resourceVersion): it is the version of a session the watcher created
+EvSrvWatch ==
+  /\ Report(IF ~\E sn \in DOMAIN net.sess : net.sess[sn].ver = R.raw THEN "watch-version-unknown" ELSE "", [n |-> R.n, raw |-> R.raw])
+  /\ UNCHANGED <<buf, caches, stages, pubs, fsubs, ctls, mons, pend, net>>
+
+\* driver expectations that were not met within their deadline
+EvExpect == Report(IF R.met THEN "" ELSE IF R.what = "watch-reestablished" THEN "watch-not-reestablished" ELSE "list-failure-not-fatal", [what |-> R.what]) /\ Skip
+EvRelisted == Report(IF ~R.met THEN "relisting-stopped" ELSE "", [n |-> R.n]) /\ Skip
+EvLists == Report(First(<<IF R.n < R.want + 1 THEN "relisting-stopped" ELSE "", IF R.maxinflight > 1 THEN "lists-overlap" ELSE "">>),
+                  [lists |-> R.n, wanted |-> R.want + 1, elapsed_us |-> R.elapsed_us, budget_us |-> R.budget_us]) /\ Skip
+EvRace == Report(IF R.res = "zombie" THEN "racing-call-zombie" ELSE "", [call |-> R.call]) /\ Skip
+
+\* what the controller reports at the end
+EvCtlFinal ==
+  Report(First(<<IF net.expectStop /\ (~R.done \/ R.err = "" \/ R.how # "none") THEN "list-failure-not-fatal" ELSE "",
+                 IF net.firstFailed /\ R.ready THEN "ready-after-failed-first-list" ELSE "",
+                 IF ~net.expectStop /\ R.how \in {"close", "close3"} /\ R.err # "" THEN "deliberate-close-reports-failure" ELSE "",
+                 IF ~R.done THEN "shutdown-timeout" ELSE "">>),
+         [final |-> R, list_failure_injected |-> net.expectStop]) /\ Skip
 
 (* ---- termination observations ---- *)
 EvBlocked == Report("api-call-blocks", [call |-> R.call, node |-> R.node]) /\ Skip
@@ -510,6 +646,28 @@ Dispatch ==
     [] e = "cb"               -> EvCb
     [] e = "leak"             -> EvLeak
     [] e = "blocked"          -> EvBlocked
+    [] e = "srv.listret"      -> EvSrvListRet
+    [] e = "srv.listcall"     -> EvSrvListCall
+    [] e = "lister.delivered" -> EvListerDelivered
+    [] e = "ctl.list"         -> EvCtlList
+    [] e = "watcher.new"      -> EvWatcherNew
+    [] e = "session.new"      -> EvSessionNew
+    [] e = "watcher.reset"    -> EvWatcherReset
+    [] e = "watcher.retry"    -> EvWatcherRetry
+    [] e = "watcher.sessiondone" -> EvWatcherSessionDone
+    [] e = "watcher.in"       -> EvWatcherIn
+    [] e = "watcher.drop"     -> EvWatcherDrop
+    [] e = "ctl.event"        -> EvCtlEvent
+    [] e = "session.frame"    -> EvSessionFrame
+    [] e = "session.in"       -> EvSessionIn
+    [] e = "session.drop"     -> EvSessionDrop
+    [] e = "session.end"      -> EvSessionEnd
+    [] e = "srv.watch"        -> EvSrvWatch
+    [] e = "expect"           -> EvExpect
+    [] e = "relisted"         -> EvRelisted
+    [] e = "lists"            -> EvLists
+    [] e = "race"             -> EvRace
+    [] e = "ctl.final"        -> EvCtlFinal
     [] e = "timeout"          -> EvTimeout
     [] e = "ret.close"        -> EvRetClose
     [] e = "after"            -> EvAfter
@@ -519,6 +677,7 @@ Dispatch ==
 Init == /\ i = 1 /\ buf = 100
         /\ caches = <<>> /\ stages = <<>> /\ pubs = <<>> /\ fsubs = <<>> /\ ctls = <<>> /\ mons = <<>>
         /\ pend = [mon |-> "", monmode |-> "", consumer |-> <<>>, closedTops |-> {}, closedAll |-> FALSE, srv |-> <<>>]
+        /\ net = NetInit
 
 Next == /\ i <= Len(Recs)
         /\ Dispatch
